@@ -184,6 +184,15 @@ func planC01(tier string, seed int64) (*Plan, error) {
 			p.Jobs = append(p.Jobs, job("H_c01_convert", "cfg", c, "n", n))
 		}
 	}
+	// extensions configured with their options (footnote id prefix/function, titles, classes, back-link HTML; linkify
+	// protocols; table alignment rendering none/attribute/style) - "every combination of ... options"
+	optCfgs := []string{cfg("gfm,footnoteopts,linkifyopts,tablenone", "attr", ""), cfg("footnotefn,tableattr,typonodash", "autoid", "xhtml"), cfg("footnoteopts,tablestyle,linkifyopts,cjkesc", "autoid,attr", "unsafe,hardwraps")}
+	for _, c := range optCfgs {
+		for n := 0; n <= 2; n++ {
+			p.Jobs = append(p.Jobs, job("H_c01_convert", "cfg", c, "n", n))
+		}
+		cfgs = append(cfgs, c)
+	}
 	core, cjk, all := cfg("core", "", ""), cfg("cjk", "", ""), cfg(allExt, "autoid,attr", "")
 	s3 := []string{core, cjk}
 	if thorough {
@@ -234,7 +243,7 @@ func planC01(tier string, seed int64) (*Plan, error) {
 		p.Jobs = append(p.Jobs, windowJobs("H_c01_convert", docs, seed+1, 150, 2, []string{all})...)
 	}
 	p.Bounds = map[string]interface{}{
-		"S(2)":          "every byte string of length 0..2 (256 values per byte) x 36 configurations: " + fmt.Sprint(cfgs),
+		"S(2)":          fmt.Sprintf("every byte string of length 0..2 (256 values per byte) x %d configurations (the last three configure Footnote/Linkify/Table/Typographer with their options): ", len(cfgs)) + fmt.Sprint(cfgs),
 		"S(3)":          "every byte string of length 3 x " + fmt.Sprint(s3),
 		"S(L,alphabet)": fmt.Sprintf("every string of length %d over each alphabet %v x {core, all extensions+autoid+attr}", la, alphabets),
 		"tokens":        fmt.Sprintf("quick: every sequence of 6 (core) / 5 (all) tokens from 'contain5', 4 tokens from 'inlines9'/'blocks2', 6 from 'tabquote', 5 from 'tablist' (thorough 7); thorough: 7 from 'containers', 5 from 'inlines'/'blocks2' x {core, all}: %v", tokenSets),
@@ -1225,15 +1234,38 @@ func planC03(tier string, seed int64) (*Plan, error) {
 		}
 	}
 	core, coreX, all, allX := cfg("core", "", ""), cfg("core", "attr", "xhtml"), cfg(allExt, "autoid,attr", ""), cfg(allExt, "autoid,attr", "xhtml,hardwraps")
+	// extensions configured with options: footnote titles/classes/back-link HTML/id prefix (the titles hold quotes,
+	// angle brackets and an ampersand), an id-prefix function, more linkify protocols, table alignment off
+	optA, optB := cfg("gfm,footnoteopts,linkifyopts,tablenone", "attr", ""), cfg("footnotefn,typographer,deflist", "autoid", "xhtml")
+	cfgs = append(cfgs, optA, optB)
 	s3 := []string{core}
 	nwin := 150
 	if thorough {
 		s3 = []string{core, coreX, all, allX}
 		nwin = 3000
 	}
+	deepExtFamilies = true
 	jobs, b, err := convertFamilies("H_c03_safe", tier, seed, cfgs, s3, []string{coreX, all}, nwin)
 	if err != nil {
 		return nil, err
+	}
+	for _, f := range extFamilies {
+		if f.Name == "footnote" || f.Name == "linkify" || f.Name == "table" {
+			for i, c := range []string{optA, optB} {
+				kv := []interface{}{"cfg", c, "n", f.LQ - i}
+				if f.Alpha != "" {
+					kv = append(kv, "alpha", f.Alpha)
+				} else {
+					kv = append(kv, "tokens", joinTok(f.Tokens))
+				}
+				jobs = append(jobs, job("H_c03_safe", kv...))
+			}
+		}
+	}
+	for _, sd := range []string{"x[^1] y[^1]\n\n[^1]: f <b> \"q\"\n", "| a | b |\n|:-|-:|\n| http://x.y | x-y://z |\n"} {
+		for q := 0; q < len(sd); q += 3 {
+			jobs = append(jobs, job("H_c03_safe", "cfg", []string{optA, optB}[q%2], "seed", sd, "pos", q, "window", 1))
+		}
 	}
 	tc := []string{allX}
 	if thorough {
@@ -1259,7 +1291,7 @@ func planC03(tier string, seed int64) (*Plan, error) {
 	p.Jobs = jobs
 	b["typographer variants"] = fmt.Sprintf("Typographer with the angle-quote / dash+ellipsis / quote substitutions disabled (nil): %d templates with 2-byte windows, S(2), S(4,{<,>,-,.,',\",a})", len(typoT))
 	b["attack templates"] = fmt.Sprintf("%d templates (image alt/src/title, link destination/title, autolinks, {#id .class k=v data-*} attribute blocks on ATX and Setext headings, info strings, table cells, footnote labels and bodies, definition terms, typographer, task lists, linkify, entities, raw HTML, reference labels/titles) with a 2-byte fully symbolic window x %v (thorough: 3-byte windows on the first 20)", len(c03Templates), tc)
-	b["configurations"] = "safe mode only: " + fmt.Sprint(cfgs)
+	b["configurations"] = "safe mode only: " + fmt.Sprint(cfgs) + "; the last two configure the Footnote, Linkify and Table extensions with their options (footnote/linkify/table families and two seeds with a sliding symbolic byte under them)"
 	p.Bounds = b
 	p.Assumptions = []string{"XML well-formedness is checked structurally (nesting, quoting, void elements written ' />', no '<' in attribute values, no duplicate attribute, every attribute has a value); character validity and named-entity declarations (XHTML DTD) are assumed, as the property allows ('whenever all its characters are representable')"}
 	p.Rule = "the output of every path is tokenised by an independent strict tokenizer executed symbolically in the harness"
